@@ -352,6 +352,285 @@ def shrink(c):
     return c
 
 
+# ---- (fix-I) sequences on ONE connection: the table registered under a name is REPLACED between executions of the same text
+def _un_bin(tag, x, y):
+    return f'(EBinary {tag} {x} {y})'
+
+
+_C0, _C1 = '(ECol 0%nat)', '(ECol 1%nat)'
+POLY_ANY = [('a', _C0), ('b', _C1), ('(a IS NULL)', f'(EUnary UIsNull {_C0})'), ('(b IS NOT NULL)', f'(EUnary UIsNotNull {_C1})'),
+            ('(a = b)', _un_bin('BEq', _C0, _C1)), ('(a < b)', _un_bin('BLt', _C0, _C1)), ('(a != b)', _un_bin('BNe', _C0, _C1)),
+            ('(a >= b)', _un_bin('BGe', _C0, _C1)), ('coalesce(a, b)', f'(ECoalesce [{_C0}; {_C1}])')]
+POLY_NUM = [('(a * 2)', _un_bin('BMul', _C0, '(EConst (VInt 2))')), ('(a + b)', _un_bin('BAdd', _C0, _C1)),
+            ('(a - b)', _un_bin('BSub', _C0, _C1)), ('(a > 1)', _un_bin('BGt', _C0, '(EConst (VInt 1))'))]
+POLY_BOOL = {'(a IS NULL)', '(b IS NOT NULL)', '(a = b)', '(a < b)', '(a != b)', '(a >= b)', '(a > 1)'}
+
+
+def _gen_rows(rng, cols, nrows=None):
+    null_p = rng.choice([0.0, 0.15, 0.3])
+    nrows = rng.choice([1, 2, 3, 5, 8]) if nrows is None else nrows
+    return [tuple(values.gen_value(rng, PY[t], null_p) for _, t in cols) for _ in range(nrows)]
+
+
+def gen_sequence(rng, depth):
+    """2-4 executions on one connection; before each one the user table `t` is (re)registered by conn.tables['t'] = table."""
+    kind = rng.choice(['other-rows', 'other-rows', 'to-no-rows', 'from-no-rows', 'other-type', 'other-type', 'intervening-statement',
+                       'intervening-statement', 'three-generations', 'same-object-rows-replaced', 'same-table-twice'])
+    if kind == 'other-type':
+        numeric = rng.random() < 0.5
+        menu = POLY_ANY + (POLY_NUM if numeric else [])
+        types = rng.sample([T_INT, T_DEC] if numeric else [T_INT, T_DEC, T_STR, T_DATE], 2)
+        targets = [rng.choice(menu) for _ in range(rng.randint(1, 3))]
+        where = rng.choice([None] + [m for m in menu if m[0] in POLY_BOOL])
+        steps = []
+        for t in types + ([types[0]] if rng.random() < 0.3 else []):
+            cols = [('a', t), ('b', t)]
+            steps.append({'case': {'cols': cols, 'rows': _gen_rows(rng, cols), 'targets': targets, 'where': where, 'from': None,
+                                   'ops': [], 'depth': 1}})
+        return {'kind': kind, 'steps': steps}
+    ncols = rng.randint(2, 4)
+    cols = [(n, rng.choice(exprgen.ALL_TYPES)) for n in 'abcd'[:ncols]]
+    base = gen_case(rng, depth, cols=cols, rows=_gen_rows(rng, cols), allow_from=False, lib=False)
+    again = lambda nrows=None: dict(base, rows=_gen_rows(rng, cols, nrows))      # noqa: E731
+    if kind == 'other-rows':
+        cs = [base, again()]
+    elif kind == 'to-no-rows':
+        cs = [base, again(0)]
+    elif kind == 'from-no-rows':
+        cs = [dict(base, rows=[]), again()]
+    elif kind == 'three-generations':
+        cs = [base, again(), again(rng.choice([0, 2, 4]))]
+    elif kind == 'same-table-twice':
+        cs = [base, base]
+    elif kind == 'same-object-rows-replaced':
+        cs = [base, again()]
+    else:
+        other = gen_case(rng, depth, cols=cols, rows=base['rows'], allow_from=False, lib=False)
+        second = again()
+        cs = [base, dict(other, rows=rng.choice([base['rows'], second['rows']])), second]
+    steps = [{'case': c} for c in cs]
+    if kind == 'same-object-rows-replaced':
+        steps[1]['keep_object'] = True
+    return {'kind': kind, 'steps': steps}
+
+
+def _exec_desc(conn, sql):
+    try:
+        curs = conn.execute(sql)
+        desc = [[d.name, getattr(d.datatype, '__name__', str(d.datatype))] for d in curs.description]
+        return [0, values.canon_rows(curs.fetchall())], desc
+    except Exception as e:  # noqa: BLE001
+        return ['exception', impl.exc_class(e), str(e)[:200]], None
+
+
+def _seq_table(c):
+    t = impl.make_table('t', [(n, PY[ty]) for n, ty in c['cols']], list(c['rows']))
+    t.update = lambda **kw: t
+    return t
+
+
+def run_sequence(seq):
+    """per step: (outcome on the shared connection, its description, outcome on a fresh connection, its description)"""
+    conn = impl.connection({})
+    out, tab = [], None
+    for st in seq['steps']:
+        c = st['case']
+        if st.get('keep_object') and tab is not None:
+            tab.rows = list(c['rows'])
+        else:
+            tab = _seq_table(c)
+            conn.tables['t'] = tab
+        got, gdesc = _exec_desc(conn, statement(c))
+        fresh, fdesc = _exec_desc(impl.connection({'t': _seq_table(c)}), statement(c))
+        out.append([got, gdesc, fresh, fdesc])
+    return out
+
+
+def sequence_first_bad(seq, out, models):
+    """None, or (index of the first step that is wrong, why)"""
+    for k, ((got, gdesc, fresh, fdesc), m) in enumerate(zip(out, models)):
+        if got[:2] == ['exception', 'other:OverflowError'] and 'date value out of range' in str(got[2]):
+            continue
+        if got != m:
+            return k, f'returns {got} but BQL semantics (model) on the table registered at that time give {m}'
+        if got != fresh or gdesc != fdesc:
+            return k, f'returns {got} described as {gdesc} but a fresh connection holding that table returns {fresh} described as {fdesc}'
+    return None
+
+
+def check_sequence(seq, tag='c01q'):
+    return sequence_first_bad(seq, run_sequence(seq), model_many([st['case'] for st in seq['steps']], tag=tag))
+
+
+def shrink_sequence(seq):
+    k, _ = check_sequence(seq)
+    seq = dict(seq, steps=seq['steps'][:k + 1])
+    i = 0
+    while i < len(seq['steps']) - 1:
+        cand = dict(seq, steps=seq['steps'][:i] + seq['steps'][i + 1:])
+        if check_sequence(cand):
+            seq = cand
+        else:
+            i += 1
+    # fewer rows, judged against the fresh connection alone (no model evaluation per candidate)
+    def differs(q):
+        return any(got != fresh or gd != fd for got, gd, fresh, fd in run_sequence(q))
+    if differs(seq):
+        for si in range(len(seq['steps'])):
+            ri = len(seq['steps'][si]['case']['rows']) - 1
+            while ri >= 0:
+                c = seq['steps'][si]['case']
+                steps = list(seq['steps'])
+                steps[si] = dict(steps[si], case=dict(c, rows=c['rows'][:ri] + c['rows'][ri + 1:]))
+                cand = dict(seq, steps=steps)
+                if differs(cand):
+                    seq = cand
+                ri -= 1
+    return seq
+
+
+def show_sequence(seq):
+    return ' ; '.join(('t.rows = ' if st.get('keep_object') else "conn.tables['t'] = ") + f'{st["case"]["cols"]} {st["case"]["rows"]} ; '
+                      + statement(st['case']) for st in seq['steps'])
+
+
+def sequence_stream(tier, rng):
+    depth = 2 if tier == 'quick' else 3
+    seqs = [gen_sequence(rng, rng.randint(1, depth)) for _ in range(260 if tier == 'quick' else 4000)]
+    outs = core.pmap(run_sequence, seqs)
+    flat = [st['case'] for q in seqs for st in q['steps']]
+    ms = model_many(flat, tag='c01q')
+    violations, hist, pos = [], {}, 0
+    for q, out in zip(seqs, outs):
+        n = len(q['steps'])
+        models, pos = ms[pos:pos + n], pos + n
+        hist[q['kind']] = hist.get(q['kind'], 0) + 1
+        bad = sequence_first_bad(q, out, models)
+        if bad and len(violations) < 3:
+            small = shrink_sequence(q)
+            k, why = check_sequence(small)
+            violations.append(core.Violation(
+                'table-replaced', f'on one connection: {show_sequence(small)}: execution {k + 1} {why}',
+                {'sequence': small}, signature='sequence:' + show_sequence(small)))
+    return violations, {'table_replacement_sequences': len(seqs), 'table_replacement_executions': len(flat),
+                        'table_replacement_kinds': dict(sorted(hist.items()))}
+
+
+# ---- (fix-I) `~` / `!~` on non-ASCII text: implementation vs Python's re.search(pattern, subject, re.IGNORECASE) (the model
+# covers ASCII literal patterns only, see ASSUMPTIONS)
+UNI_SUBJECTS = ['\u0130stanbul Kart', 'ISTANBUL KART', 'istanbul kart', 'Il\u0131ca Market', 'ILICA market', 'D\u0130YARBAKIR',
+                '\u0391\u03a0\u039f\u03a3\u03a4\u0391\u03a3\u0397 \u0391\u0395', '\u0391\u03c0\u03cc\u03c3\u03c4\u03b1\u03c3\u03b7',
+                '\u03bf\u03b4\u03cc\u03c2 \u03a3\u03bf\u03bb\u03c9\u03bc\u03bf\u03cd', '\u039f\u0394\u039f\u03a3',
+                'Ma\u017fchinenbau GmbH', 'MASCHINENBAU', 'Stra\u00dfe 5', 'STRASSE', 'GRO\u1e9eE', '\u212aelvin Lab', 'kelvin', '\u212bngstr\u00f6m',
+                '\u00e5ngstr\u00d6m', '\ufb01nance', 'FINANCE', '\u00b5Soft', '\u039cSOFT \u03bc', '\u01c5ungla', '\u01c6ungla', 'Caf\u00e9 \u00c9t\u00e9',
+                'CAFE\u0301', '\u0416\u0443\u043a \u0436\u0423\u041a', 'Assets:Cash', 'Expenses:Food:Caf\u00e9', '']
+UNI_SUBST = [('i', '\u0130'), ('I', '\u0131'), ('i', '\u0131'), ('\u0130', 'i'), ('\u0131', 'I'), ('s', '\u017f'), ('S', '\u017f'), ('\u017f', 's'),
+             ('\u03c3', '\u03c2'), ('\u03c2', '\u03a3'), ('\u03a3', '\u03c2'), ('\u03c2', '\u03c3'), ('k', '\u212a'), ('K', '\u212a'), ('\u212a', 'k'),
+             ('ss', '\u00df'), ('\u00df', 'SS'), ('\u00df', '\u1e9e'), ('\u00e5', '\u212b'), ('\u212b', '\u00e5'), ('\u00b5', '\u03bc'), ('\u03bc', '\u00b5'),
+             ('\u039c', '\u00b5'), ('fi', '\ufb01'), ('\ufb01', 'FI'), ('\u01c5', '\u01c4'), ('\u01c6', '\u01c5'), ('\u00e9', 'e\u0301')]
+_META = set('.^$*+?{}[]\\|()')
+
+
+def gen_unicode_pattern(rng, subjects):
+    """a metacharacter-free pattern: a substring of a subject in another letter case / with a special-casing character exchanged"""
+    s = rng.choice([x for x in subjects if x])
+    if rng.random() < 0.6:
+        s = rng.choice(s.split())
+    i = rng.randrange(len(s))
+    p = s[i:i + rng.randint(1, 8)]
+    for _ in range(rng.choice([1, 1, 2])):
+        how = rng.choice(['upper', 'lower', 'swapcase', 'casefold', 'title', 'subst', 'subst', 'keep'])
+        if how == 'subst':
+            subs = [(a, b) for a, b in UNI_SUBST if a in p] or [(None, None)]
+            a, b = rng.choice(subs)
+            p = p.replace(a, b) if a else p
+        elif how != 'keep':
+            p = getattr(p, how)()
+    p = ''.join(ch for ch in p if ch not in _META and ch not in '\'"')
+    return p
+
+
+def gen_unicode_case(rng):
+    subjects = rng.sample(UNI_SUBJECTS, rng.randint(3, 7))
+    rows = []
+    for s in subjects:
+        rows.append((s if rng.random() > 0.1 else None, gen_unicode_pattern(rng, subjects) if rng.random() > 0.1 else None))
+    return {'rows': rows, 'pattern': gen_unicode_pattern(rng, subjects), 'subject': rng.choice([x for x in subjects if x])}
+
+
+def _re_match(s, p):
+    import re
+    if s is None or p is None:
+        return None
+    return re.search(p, s, re.IGNORECASE) is not None
+
+
+def _neg(v):
+    return None if v is None else not v
+
+
+def run_unicode_case(c):
+    """[] or the list of (statement, what, got, expected) disagreements"""
+    t = impl.make_table('t', [('s', str), ('p', str)], c['rows'])
+    conn = impl.connection({'t': t})
+    P, S = c['pattern'], c['subject']
+    bad = []
+    sql = f"SELECT s ~ '{P}', s !~ '{P}', s ~ p, s !~ p, '{S}' ~ p, '{S}' !~ '{P}', (s ~ '{P}') IS NULL FROM #t"
+    want = [(_re_match(s, P), _neg(_re_match(s, P)), _re_match(s, p), _neg(_re_match(s, p)), _re_match(S, p), _neg(_re_match(S, P)),
+             s is None) for s, p in c['rows']]
+    checks = [(sql, want)]
+    for cond, f in ((f"s ~ '{P}'", lambda s, p: _re_match(s, P)), (f"s !~ '{P}'", lambda s, p: _neg(_re_match(s, P))),
+                    ('s ~ p', _re_match), ('s !~ p', lambda s, p: _neg(_re_match(s, p))),
+                    (f"NOT (s ~ '{P}')", lambda s, p: not _re_match(s, P)), (f"'{S}' ~ p AND s IS NOT NULL", lambda s, p: _re_match(S, p) and s is not None)):
+        checks.append((f'SELECT s, p FROM #t WHERE {cond}', [(s, p) for s, p in c['rows'] if f(s, p)]))
+    # (BQL's NOT is NULL-aware: NOT NULL is TRUE - Model/Eval.v UNot, covered by unary_matrix_cases)
+    for q, w in checks:
+        try:
+            got = [tuple(r) for r in conn.execute(q).fetchall()]
+        except Exception as e:  # noqa: BLE001
+            got = 'raised ' + repr(e)[:200]
+        if got != w:
+            bad.append([q, repr(got), repr(w)])
+    return bad
+
+
+def unicode_match_stream(tier, rng):
+    cases = [gen_unicode_case(rng) for _ in range(300 if tier == 'quick' else 5000)]
+    outs = core.pmap(run_unicode_case, cases)
+    violations = []
+    hist = {'rows': 0, 'null_operands': 0, 'patterns_non_ascii': 0, 'patterns_ascii': 0, 'cells_true': 0, 'cells_false': 0,
+            'special_characters_in_patterns': {}}
+    for c, bad in zip(cases, outs):
+        for s, p in c['rows'] + [(c['subject'], c['pattern'])]:
+            hist['rows'] += 1
+            hist['null_operands'] += s is None or p is None
+            if p is not None:
+                hist['patterns_ascii' if p.isascii() else 'patterns_non_ascii'] += 1
+                for ch in p:
+                    if not ch.isascii() and any(ch in a or ch in b for a, b in UNI_SUBST):
+                        k = 'U+%04X' % ord(ch)
+                        hist['special_characters_in_patterns'][k] = hist['special_characters_in_patterns'].get(k, 0) + 1
+            m = _re_match(s, p)
+            hist['cells_true'] += m is True
+            hist['cells_false'] += m is False
+        if bad and len(violations) < 3:
+            small = shrink_unicode_case(c)
+            q, got, want = run_unicode_case(small)[0]
+            violations.append(core.Violation(
+                'unicode-match', f'{q} over rows (s, p) {small["rows"]}: implementation {got} but the case-insensitive regular-expression '
+                f'search re.search(p, s, re.IGNORECASE) gives {want}', {'unicode_match': small, 'statement': q, 'got': got, 'expected': want},
+                signature='unicode-match:' + q + ' rows=' + repr(small['rows'])))
+    return violations, {'unicode_match_cases': len(cases), 'unicode_match_statements': 7 * len(cases), 'unicode_match_histogram': hist}
+
+
+def shrink_unicode_case(c):
+    for r in c['rows']:
+        x = dict(c, rows=[r])
+        if run_unicode_case(x):
+            return x
+    return c
+
+
 def run(tier, rng):
     n = 2500 if tier == 'quick' else 40000
     depth = 3 if tier == 'quick' else 5
@@ -419,9 +698,14 @@ def run(tier, rng):
             'deep-nesting', f'operators nested {NEST_DEEP} deep ({", ".join(f for f, _ in deep_bad)}): {"; ".join(kinds)}; e.g. {r0[0][:120]}...',
             {'nesting': [f0, NEST_DEEP], 'forms': [f for f, _ in deep_bad], 'statement': r0[0], 'got': repr(r0[1]), 'expected': repr(r0[2])},
             signature=f'deep-nesting:depth {NEST_DEEP}:' + '+'.join(kinds)))
+    # (fix-I) drawn after every other stream: the streams above see the random numbers they saw before
+    qviol, qcov = sequence_stream(tier, rng)
+    uviol, ucov = unicode_match_stream(tier, rng)
+    violations.extend(qviol + uviol)
     cov = {
-        'nesting_probes': nnest,
-        'evaluations': len(cases) + nsweep + nnest, 'distinct_nontrivial': nontrivial,
+        'nesting_probes': nnest, **qcov, **ucov,
+        'evaluations': len(cases) + nsweep + nnest + qcov['table_replacement_executions'] + ucov['unicode_match_statements'],
+        'distinct_nontrivial': nontrivial,
         'date_overflow_cases_counted_not_compared': date_overflows,
         'rule': 'random typed expression trees (depth<=%d) over tables of 2-6 typed columns, 0-12 rows, NULL density 0-50%%, used as '
                 'targets and as WHERE / FROM conditions; exhaustive depth-1 matrix: every modelled binary operator overload x all '
@@ -432,6 +716,11 @@ def run(tier, rng):
                 'columns, each observed as a cell, under IS NULL, under COALESCE and as WHERE condition (unary_matrix_cases); '
                 'one operator nested 2-10 and 40 deep over a column vs the value computed in Python (nesting_probes); '
                 'NULL-strictness sweep over every registered function and operator overload x NULL position; '
+                'sequences of 2-4 executions on ONE connection where the user table registered under the name is replaced between executions '
+                '(other rows / no rows / another column type / the same object with other rows; same statement text, optionally a different '
+                'statement in between): every execution vs the model on the table registered at that time and vs a fresh connection (rows and '
+                'description); ~ and !~ with metacharacter-free patterns on non-ASCII subjects (case variants and special-casing characters of the '
+                'subject\'s own substrings; constant and column operands, NULLs; as cells and as WHERE conditions) vs re.search(.., re.IGNORECASE); '
                 'non-trivial = distinct (statement, table) with depth>=2, >=1 row and >=1 NULL' % depth,
         'samples': [statement(c) for c in cases[len(matrix_cases()):len(matrix_cases()) + 5]],
         'traces_validated_against_impl': len(cases), 'null_strictness_checks': nsweep,
@@ -444,6 +733,17 @@ def run(tier, rng):
 
 
 def replay(rec):
+    if 'sequence' in rec:
+        q = rec['sequence']
+        for st in q['steps']:
+            c = st['case']
+            c['cols'] = [tuple(x) for x in c['cols']]
+            c['rows'] = [tuple(_unjson(v, t) for v, (_, t) in zip(r, c['cols'])) for r in c['rows']]
+        return check_sequence(q, tag='c01s') is None
+    if 'unicode_match' in rec:
+        c = rec['unicode_match']
+        c['rows'] = [tuple(r) for r in c['rows']]
+        return not run_unicode_case(c)
     if 'nesting' in rec:
         return nesting_probe_one(rec['nesting'][0], rec['nesting'][1]) is None
     if 'case' not in rec:
